@@ -91,6 +91,13 @@ def run(tier):
         L = rng.randint(0, vmax, size=(R_, C_)).astype(np.float32)
         Rt = np.roll(L, int(rng.randint(a, b + 1)), axis=1)
         Rt = np.where(rng.rand(R_, C_) < 0.3, rng.randint(0, vmax, size=(R_, C_)), Rt).astype(np.float32)
+        if k % 8 == 7 or k % 8 == 2:
+            # periodic texture (period 2 columns) with 16-bit radiometry: the costs at d and d +- 2 are mathematically EQUAL, so the winner
+            # is decided by a tie rule - any position-dependent rounding noise in the cost flips it
+            base = rng.randint(0, 65536, size=(R_, 2)).astype(np.float32)
+            L = np.tile(base, (1, C_ // 2 + 1))[:, :C_].copy()
+            Rt = np.roll(L, int(rng.randint(a, b + 1)), axis=1)
+            b = max(b, a + 3)
         if k % 3 == 0:
             mL = (rng.rand(R_, C_) < 0.03) * rng.choice([1, 2], size=(R_, C_))
             mR = (rng.rand(R_, C_) < 0.03) * rng.choice([1, 2], size=(R_, C_))
